@@ -63,6 +63,13 @@ def isLive (s : ReqSt) : Bool :=
   match s.phase with
   | .halted => false | .failed => false | .escaped _ => false | _ => true
 
+/-- the reads of `data` when cut at the (increasing) offsets -/
+def splitAtCuts (data : Bytes) (cuts : List Nat) : List Bytes :=
+  let rec go (rest : Bytes) (pos : Nat) : List Nat → List Bytes
+    | [] => [rest]
+    | c :: cs => rest.take (c - pos) :: go (rest.drop (c - pos)) (max c pos) cs
+  go data 0 cuts
+
 def handle : Sexp → Sexp
   | .list [.atom "req", .list frags, .list bad] =>
     match bytesList frags, bytesList bad with
@@ -81,6 +88,13 @@ def handle : Sexp → Sexp
     match bytesList frags with
     | some fr => .list [chunkObs (fr.foldl chunkReader.feed ({}, [])), chunkObs (chunkReader.run {} fr.flatten)]
     | none => sym "bad-request"
+  | .list [.atom "pack", .list pieces, .list cuts] =>
+    match bytesList pieces, cuts.mapM nat? with
+    | some ps, some cs =>
+      let wire := packAll ps
+      let fr := splitAtCuts wire cs
+      .list [ofBytes wire, chunkObs (fr.foldl chunkReader.feed ({}, [])), chunkObs (chunkReader.run {} wire)]
+    | _, _ => sym "bad-request"
   | .list [.atom "srv", .atom kind, .list conns, .list bad] =>
     match bytesList bad, conns.mapM (fun c => match c with
         | .list [.list fr, cl] => (match bytesList fr, bool? cl with | some f, some c => some (f, c) | _, _ => none)
